@@ -36,7 +36,7 @@ static int cmp_name(const void *a, const void *b)
 	return strcmp(((const struct dirent *)a)->d_name, ((const struct dirent *)b)->d_name);
 }
 
-static void init(void)
+__attribute__((constructor)) static void init(void)
 {
 	const char *m;
 	if (mode >= 0)
